@@ -38,6 +38,7 @@ import DPL.Proofs.SamplersGaussLaw
 import DPL.Proofs.SamplersLap4Law
 import DPL.Proofs.SamplersRejection
 import DPL.Proofs.SamplersGammaSum
+import DPL.Proofs.SamplersStreamCKSFinal
 
 namespace DPL.C03
 open DPL DPL.Smp MeasureTheory Set
@@ -618,25 +619,126 @@ example : 0 < cksPassProb (1 : ℝ) 1 0 := by
   have : 0 < 1 - Real.exp (-(1:ℝ)) := by linarith
   positivity
 
-/-! statements that remain unproved (validated statistically by the harness) -/
+/-! ### 9. GaussianDiscrete over the i.i.d. UNIFORM stream (composition inside a pass + renewal)
 
-/-- the law of the model's `cksLoop` over an i.i.d. UNIFORM stream (rather than over an i.i.d. stream of passes, which is
-what `discrete_gauss_loop_law` assumes).  The model's inner loops carry fixed fuel (the Python loops are unbounded), so
-the statement allows for the event that an inner loop runs out of fuel: the probability of returning `y` is the
-discrete Gaussian's up to the probability of that abort.
-MISSING: (i) the composition of the branch laws inside one pass — `geomCount` is itself a loop of `bernNegExp` calls and
-`bernNegExp` recurses for γ > 1 — into `cksPassProb`; (ii) a renewal argument: a pass consumes a random, unbounded
-number of uniforms, so "the rest of the stream after a pass is again i.i.d. uniform and independent of the pass" has to
-be proved for the stopping position (strong Markov property of the product measure).  The conditioning / geometric
-series step is `discrete_gauss_loop_law`. -/
-def cks_loop_law_full : Prop :=
-  ∀ (scale : ℝ), 0 < scale → ∀ y : ℤ,
+`Discrete.streamμ = Measure.infinitePi (fun _ => unif01)` is the law of the stream `rng.random(), rng.random(), …`;
+`Discrete.Ret f b` is the event "on some finite prefix of the stream the sampler `f` returns `b`".  `SmpS.geomI`,
+`SmpS.passI`, `SmpS.loopI` (DPL/Proofs/SamplersStreamCKS.lean) are the geometric loop, one pass and the outer loop of
+`GaussianDiscrete.randomise` with UNBOUNDED `bernoulli_neg_exp` loops (C01's fuel-free `Discrete.bernLoop`, which recurses
+on the stream itself; `F` caps the geometric count, `n` the number of passes, and the laws below are stated for every
+cap or for the union over all caps).  The executable model `cksLoop` (fuel 64 / 4096 / 4096 on its inner loops) is a
+restriction of `loopI` (`cks_model_refines`).  Independence of what a sampler returns from what reads the rest of the
+stream — although the sampler consumes a random, unbounded number of uniforms — is `SmpS.HasLaw`, proved from
+`Measure.infinitePi` (C01's `bind_law`), not assumed. -/
+
+open DPL.Discrete DPL.SmpS in
+/-- **the geometric proposal**: `geom_x = 0; while bernoulli_neg_exp(τ): geom_x += 1` returns `k` (`k` below the cap)
+with probability `e^{−τk}(1 − e^{−τ})`, whatever reads the rest of the stream afterwards -/
+theorem cks_geometric_law (tau : ℝ) (ht : 0 ≤ tau) (F k : ℕ) (hk : k < F) :
+    MeasurableSet (Ret (geomI tau F) k) ∧
+    streamμ (Ret (geomI tau F) k) = ENNReal.ofReal (Real.exp (-(tau * k)) * (1 - Real.exp (-tau))) := by
+  have h := (geomI_hasLaw tau ht F).ret k
+  refine ⟨h.1, ?_⟩
+  have hq : Real.exp (-tau) ≤ 1 := Real.exp_le_one_iff.mpr (by linarith)
+  rw [h.2, gw, if_pos hk, ENNReal.ofReal_mul (Real.exp_pos _).le, ← ENNReal.ofReal_pow (Real.exp_pos _).le,
+    ← Real.exp_nat_mul]
+  congr 3; ring
+
+open DPL.Discrete DPL.SmpS in
+/-- **one pass over the uniform stream**: the pass accepts with output `y` with probability `cksPassProb τ σ² |y|`
+(`|y|` below the cap on the geometric loop) — the hypothesis `hpass` of `discrete_gauss_loop_law`, now a theorem about
+the uniforms: geometric proposal, fair sign, `bernoulli_neg_exp(γ)` acceptance (recursion for `γ > 1` included) -/
+theorem cks_pass_law (tau sigma2 : ℝ) (ht : 0 ≤ tau) (hs : 0 < sigma2) (F : ℕ) (y : ℤ) (hy : y.natAbs < F) :
+    MeasurableSet (Ret (passI tau sigma2 F) (some y)) ∧
+    streamμ (Ret (passI tau sigma2 F) (some y)) = ENNReal.ofReal (cksPassProb tau sigma2 y.natAbs) := by
+  refine ⟨(passI_isLaw tau sigma2 ht hs F).measurable _, ?_⟩
+  have hq : Real.exp (-tau) ≤ 1 := Real.exp_le_one_iff.mpr (by linarith)
+  have hf : 0 ≤ 1 - Real.exp (-tau) := by linarith
+  have hpow : 0 ≤ Real.exp (-tau) ^ y.natAbs := pow_nonneg (Real.exp_pos _).le _
+  rw [passI_some tau sigma2 ht hs, gw, if_pos hy, ← ENNReal.ofReal_pow (Real.exp_pos _).le,
+    ← ENNReal.ofReal_mul hpow, ← ENNReal.ofReal_mul (by norm_num), ← ENNReal.ofReal_mul (mul_nonneg hpow hf),
+    ← Real.exp_nat_mul]
+  unfold cksPassProb
+  congr 1
+  have : (y.natAbs : ℝ) * -tau = -(tau * y.natAbs) := by ring
+  rw [this]; ring
+
+open DPL.Discrete DPL.SmpS in
+/-- **renewal**: whatever the first pass consumed, the passes that follow see a fresh i.i.d. stream —
+`P[≤ n+1 passes return y] = P[pass accepts y] + P[pass rejects] · P[≤ n passes return y]` -/
+theorem cks_renewal (tau sigma2 : ℝ) (ht : 0 ≤ tau) (hs : 0 < sigma2) (F n : ℕ) (y : ℤ) :
+    streamμ (Ret (loopI tau sigma2 F (n + 1)) y)
+      = streamμ (Ret (passI tau sigma2 F) (some y))
+        + streamμ (Ret (passI tau sigma2 F) none) * streamμ (Ret (loopI tau sigma2 F n) y) :=
+  loopI_succ_law tau sigma2 ht hs F n y
+
+/-- the model's loop is a restriction of the unbounded loop: wherever `cksLoop` returns, `loopI` (geometric cap 4096,
+same number of passes) returns the same value and leaves the same rest of the stream unread -/
+theorem cks_model_refines (tau sigma2 : ℝ) (ht : 0 ≤ tau) (hs : 0 < sigma2) (fuel : ℕ) (us : List ℝ) (y : ℤ)
+    (rest : List ℝ) (h : cksLoop tau sigma2 fuel us = some (y, rest)) :
+    SmpS.loopI tau sigma2 4096 fuel us = .ok (y, rest) :=
+  SmpS.cksLoop_sub tau sigma2 ht hs fuel us y rest h
+
+/-- non-vacuity of `cks_model_refines`: a stream on which the model returns 0 after one pass (the first
+`bernoulli_neg_exp(τ)` returns 0 — one success, one failure — so `geom_x = 0`; sign `+`; the acceptance coin returns 1) -/
+example : cksLoop (1 : ℝ) 1 5 [1 / 2, 2, 2, 2, 7] = some (0, [7]) := by
+  have hb : ((0:ℕ) == 1) = false := rfl
+  have h1 : geomCount (1:ℝ) 4096 0 [1 / 2, 2, 2, 2, 7] = some (0, [2,2,7]) := by
+    show geomCount (1:ℝ) (4095 + 1) 0 [1 / 2, 2, 2, 2, 7] = some (0, [2,2,7])
+    rw [geomCount]
+    norm_num [bernNegExp, bernCount, hb]
+  have h2 : bernNegExp 4096 (cksGamma (1:ℝ) 1 0) [2, 7] = some (true, [7]) := by
+    show bernNegExp (4095 + 1) (cksGamma (1:ℝ) 1 0) [2, 7] = some (true, [7])
+    rw [bernNegExp, cksGamma_real]
+    norm_num [bernCount]
+  show cksLoop (1 : ℝ) 1 (4 + 1) [1 / 2, 2, 2, 2, 7] = some (0, [7])
+  rw [cksLoop, h1]
+  norm_num [h2]
+
+/-- the discrete Gaussian weights `e^{−y²/(2σ²)} / Σ_z e^{−z²/(2σ²)}` form a probability distribution on ℤ (the
+normaliser is finite and non-zero, without the hypotheses of `discrete_gauss_normaliser`) -/
+theorem discrete_gauss_pmf (sigma2 : ℝ) (hs : 0 < sigma2) :
+    (∑' z : ℤ, ENNReal.ofReal (Real.exp (-((z : ℝ) ^ 2 / (2 * sigma2))))) ≠ ⊤ ∧
+    (∑' z : ℤ, ENNReal.ofReal (Real.exp (-((z : ℝ) ^ 2 / (2 * sigma2))))) ≠ 0 ∧
+    ∑' y : ℤ, ENNReal.ofReal (Real.exp (-((y : ℝ) ^ 2 / (2 * sigma2))))
+        / ∑' z : ℤ, ENNReal.ofReal (Real.exp (-((z : ℝ) ^ 2 / (2 * sigma2)))) = 1 :=
+  ⟨SmpS.gE_norm_ne_top sigma2 hs, SmpS.gE_norm_ne_zero sigma2, SmpS.dGauss_tsum sigma2 hs⟩
+
+open DPL.Discrete DPL.SmpS in
+/-- **the Canonne–Kamath–Steinke loop over the i.i.d. uniform stream has the discrete Gaussian law** (loops unbounded, as
+in the Python code): the probability that some run `loopI τ σ² F n` — any cap `F` on the geometric count, any number `n`
+of passes — returns `y` is `e^{−y²/(2σ²)} / Σ_z e^{−z²/(2σ²)}`.  Proof: `cks_pass_law`, `cks_renewal`, suprema over the
+caps (a fixed-point equation `x = A_y + R·x`), and `R + Σ_z A_z = 1` because the geometric loop returns a.s. -/
+theorem cks_unbounded_loop_law (tau sigma2 : ℝ) (ht : 0 < tau) (hs : 0 < sigma2) (y : ℤ) :
+    streamμ (⋃ p : ℕ × ℕ, Ret (loopI tau sigma2 p.1 p.2) y)
+      = ENNReal.ofReal (Real.exp (-((y : ℝ) ^ 2 / (2 * sigma2))))
+          / ∑' z : ℤ, ENNReal.ofReal (Real.exp (-((z : ℝ) ^ 2 / (2 * sigma2)))) :=
+  retI_law tau sigma2 ht hs y
+
+/-- the parameters `GaussianDiscrete.randomise` hands to the loop are admissible: `τ = 1/(1+⌊scale⌋) > 0`, `σ² > 0` -/
+theorem cks_params_pos (scale : ℝ) (h : 0 < scale) : 0 < cksTau scale ∧ cksTau scale ≤ 1 ∧ 0 < cksSigma2 scale := by
+  have hfl : (0 : ℝ) ≤ ((⌊scale⌋ : ℤ) : ℝ) := by exact_mod_cast Int.floor_nonneg.mpr h.le
+  refine ⟨?_, ?_, ?_⟩
+  · simp only [cksTau, transc_floor]; positivity
+  · simp only [cksTau, transc_floor]
+    rw [div_le_one (by linarith)]; linarith
+  · simp only [cksSigma2, transc_pow]; exact Real.rpow_pos_of_pos h _
+
+/-- **the law of the model's `cksLoop` over an i.i.d. UNIFORM stream** (rather than over an i.i.d. stream of passes, which
+is what `discrete_gauss_loop_law` assumes).  The model's inner loops carry fixed fuel (the Python loops are unbounded),
+so the statement allows for the event `abort` that the model never returns (an inner loop ran out of fuel): the
+probability of returning `y` is the discrete Gaussian's up to the probability of that event.
+Proof: `cks_model_refines` + `cks_unbounded_loop_law` give `μ ret_z ≤ dG z` for every `z`; the events `ret_z`, `z ≠ y`,
+cover the complement of `ret_y ∪ abort`, and `Σ_z dG z = 1` (`discrete_gauss_pmf`). -/
+theorem cks_loop_law_full (scale : ℝ) (hscale : 0 < scale) (y : ℤ) :
     let μ := Measure.infinitePi (fun _ : ℕ => unif01)
     let run := fun (ω : ℕ → ℝ) (N fuel : ℕ) => cksLoop (cksTau scale) (cksSigma2 scale) fuel ((List.range N).map ω)
     let ret := {ω : ℕ → ℝ | ∃ N fuel rest, run ω N fuel = some (y, rest)}
     let abort := {ω : ℕ → ℝ | ∀ N fuel, run ω N fuel = none}
     let dG := ENNReal.ofReal (Real.exp (-((y : ℝ) ^ 2 / (2 * cksSigma2 scale))))
       / ∑' z : ℤ, ENNReal.ofReal (Real.exp (-((z : ℝ) ^ 2 / (2 * cksSigma2 scale))))
-    μ ret ≤ dG ∧ dG ≤ μ ret + μ abort
+    μ ret ≤ dG ∧ dG ≤ μ ret + μ abort := by
+  obtain ⟨ht, _, hs⟩ := cks_params_pos scale hscale
+  exact SmpS.cks_model_sandwich (cksTau scale) (cksSigma2 scale) ht hs y
 
 end DPL.C03
